@@ -371,7 +371,7 @@ def run(tier):
             cases.append((f'global-len{n}', {'model': copy.deepcopy(code)}))
             cases.append((f'fn-len{n}', {'model': [['function', 'ff', ['p', 'q'], False, False, copy.deepcopy(code)],
                                                    ['expr', 'x', ['call', 'ff', [['var', 'x'], ['var', 'y']]]], LOGV('x=', 'x')]}))
-    for _ in range(700 if quick else 8000):
+    for _ in range(500 if quick else 8000):
         cases.append(('jump-random', {'model': lint_model(r)}))
     for _ in range(150 if quick else 1500):
         prog = scriptgen.gen_program(r, max_depth=3)
@@ -459,7 +459,7 @@ def run(tier):
             for desc, edited, k in eds:
                 pj = [(job(model, e), job(edited, e)) for e in range(len(ENVS))]
                 if k is not None:
-                    pj += [(job(driver(model, k), e), job(driver(edited, k), e)) for e in range(len(ENVS))]
+                    pj += [(job(driver(model, k), e), job(driver(edited, k), e)) for e in ((0, 2) if quick else range(len(ENVS)))]
                 pairs.append((ci, w, desc, pj))
         # plain runs also serve the converse of the unknown-label clause
         if tag != 'shipped' and not any(pp[0] == ci for pp in pairs[-1:]):
@@ -511,7 +511,7 @@ def run(tier):
     t0 = _t.time()
     corr_n = 0
     if model_ok:
-        budget = {'global-len3': 300, 'fn-len3': 300, 'global-len4': 500, 'fn-len4': 500, 'jump-random': 700 if quick else 3000,
+        budget = {'global-len3': 200 if quick else 1000, 'fn-len3': 200 if quick else 1000, 'global-len4': 500, 'fn-len4': 500, 'jump-random': 400 if quick else 3000,
                   'structured': 150 if quick else 600}
         by_tag = {}
         for i, (tag, _) in enumerate(cases):
